@@ -2,6 +2,7 @@
 from __future__ import annotations
 
 import ast
+import datetime
 import decimal
 import io
 import struct
@@ -163,29 +164,54 @@ def struct_codes(fmt: str) -> List[str]:
     return out
 
 
-# ---- a whitelisted interpreter for small pure methods --------------------------------------------------------------
+# ---- a whitelisted interpreter for repository methods -----------------------------------------------------------------
 # Repository code is never imported or run by CPython: its AST is interpreted here over concrete finite inputs, and only
 # the constructs / builtins / methods enumerated below are understood (anything else is ``Unsupported`` -> analysis error).
+# Objects of foreign modules are represented by models: ``Stub`` (records calls), ``Opaque`` (an imported name), ``NativeModel``
+# subclasses written in the checker (e.g. a Deferred model), and plain standard-library values (bytes, dict, BytesIO, datetime).
 
 class Unsupported(Exception):
     pass
 
 
 class Raised(Exception):
-    def __init__(self, name: str):
+    """An exception raised by interpreted code: class name + (when it could be built) the exception value."""
+
+    def __init__(self, name: str, value: object = None):
         super().__init__(name)
         self.name = name
+        self.value = value
 
 
 class Inst:
-    """An instance of a class of the analysed module."""
+    """An instance of a class of an analysed module."""
 
-    def __init__(self, cls: ast.ClassDef, **fields):
+    def __init__(self, cls: ast.ClassDef, /, **fields):
         self.cls = cls
         self.fields: Dict[str, object] = dict(fields)
 
     def __repr__(self):
         return f"<{self.cls.name} {self.fields!r}>"
+
+
+class DictInst(Inst):
+    """An instance of a class deriving from dict (AmpBox ...): ``data`` holds the mapping."""
+
+    def __init__(self, cls: ast.ClassDef, /, data=None, **fields):
+        super().__init__(cls, **fields)
+        self.data: dict = dict(data or {})
+
+    def __repr__(self):
+        return f"<{self.cls.name} {self.data!r}>"
+
+    def __eq__(self, other):
+        if isinstance(other, DictInst):
+            return self.data == other.data
+        if isinstance(other, dict):
+            return self.data == other
+        return NotImplemented
+
+    __hash__ = None  # type: ignore[assignment]
 
 
 class _Bound:
@@ -197,23 +223,102 @@ class _ClassRef:
     def __init__(self, cls: ast.ClassDef):
         self.cls = cls
 
+    def __eq__(self, other):
+        return isinstance(other, _ClassRef) and other.cls is self.cls
+
+    def __hash__(self):
+        return id(self.cls)
+
+
+class _Closure:
+    def __init__(self, fdef, env, cls=None):
+        self.fdef, self.env, self.cls = fdef, env, cls
+
+
+class Opaque:
+    """A name imported from a module that is not analysed (an exception class, a constant ...)."""
+
+    def __init__(self, name: str):
+        self.name = name
+
+    def __eq__(self, other):
+        return isinstance(other, Opaque) and other.name == self.name
+
+    def __hash__(self):
+        return hash(("opaque", self.name))
+
+    def __repr__(self):
+        return f"<imported {self.name}>"
+
+
+class OpaqueInst:
+    def __init__(self, of: Opaque, args=(), kw=None):
+        self.of, self.args, self.kw = of, tuple(args), dict(kw or {})
+
+    def __repr__(self):
+        return f"<{self.of.name}{self.args!r}>"
+
+
+class Stub:
+    """A foreign collaborator (transport, box receiver, locator ...): every method call is recorded; configured methods
+    return a value or call a Python function; configured attributes are plain values."""
+
+    def __init__(self, name: str, returns: Optional[Dict[str, object]] = None, attrs: Optional[Dict[str, object]] = None):
+        self.name = name
+        self.returns = dict(returns or {})
+        self.attrs = dict(attrs or {})
+        self.calls: List[Tuple[str, tuple, dict]] = []
+
+    def called(self, method: str) -> List[tuple]:
+        return [a for m, a, _ in self.calls if m == method]
+
+    def __repr__(self):
+        return f"<stub {self.name}>"
+
+
+class _StubMethod:
+    def __init__(self, stub: Stub, name: str):
+        self.stub, self.name = stub, name
+
+
+class NativeModel:
+    """Base class of models written in the checker; ``_methods`` lists what interpreted code may call, ``_attrs`` what it may read."""
+    _methods: Set[str] = set()
+    _attrs: Set[str] = set()
+
+
+class PyFn:
+    """A Python callable handed to interpreted code (a probe, a fake responder)."""
+
+    def __init__(self, fn: Callable, name: str = "probe"):
+        self.fn, self.name = fn, name
+
 
 _TYPES = {"int": int, "float": float, "str": str, "bytes": bytes, "bool": bool, "list": list, "tuple": tuple, "dict": dict,
-          "bytearray": bytearray, "set": set, "decimal.Decimal": decimal.Decimal}
+          "bytearray": bytearray, "set": set, "decimal.Decimal": decimal.Decimal, "object": object}
 _PURE = {"int": int, "float": float, "str": str, "repr": repr, "len": len, "bytes": bytes, "bool": bool, "abs": abs, "ord": ord, "chr": chr,
          "sorted": sorted, "range": range, "list": list, "tuple": tuple, "set": set, "min": min, "max": max, "sum": sum, "bytearray": bytearray,
-         "type": type, "dict": dict, "divmod": divmod, "enumerate": enumerate, "zip": zip, "reversed": reversed}
+         "type": type, "dict": dict, "divmod": divmod, "enumerate": enumerate, "zip": zip, "reversed": reversed, "slice": slice, "format": format,
+         "any": any, "all": all, "round": round, "hex": hex, "iter": iter, "next": next, "frozenset": frozenset}
 _STRUCT = {"struct.pack": struct.pack, "pack": struct.pack, "struct.unpack": struct.unpack, "unpack": struct.unpack,
            "struct.calcsize": struct.calcsize, "calcsize": struct.calcsize}
-_NOOPS = {"log.msg", "log.err", "warnings.warn"}
+_NOOPS = {"log.msg", "log.err", "warnings.warn", "_log.failure", "_log.info", "_log.debug", "_log.warn", "_log.error", "log.info"}
 _OBJ_METHODS = {  # methods that may be called on plain Python values, by receiver type
     (str, bytes, bytearray): {"encode", "decode", "lower", "upper", "strip", "lstrip", "rstrip", "join", "startswith", "endswith", "find", "split",
-                              "replace", "title", "count", "index", "isdigit", "hex"},
-    (list,): {"append", "extend", "pop", "insert", "index", "count", "copy", "reverse", "sort"},
-    (dict,): {"items", "keys", "values", "get", "pop", "copy", "setdefault", "update"},
-    (set,): {"add", "discard", "copy"},
+                              "replace", "title", "count", "index", "isdigit", "hex", "format", "rsplit", "partition", "zfill", "rjust", "ljust"},
+    (list,): {"append", "extend", "pop", "insert", "index", "count", "copy", "reverse", "sort", "remove", "clear"},
+    (dict,): {"items", "keys", "values", "get", "pop", "copy", "setdefault", "update", "clear", "popitem"},
+    (set,): {"add", "discard", "copy", "remove", "update"},
+    (tuple,): {"index", "count"},
     (io.BytesIO,): {"write", "read", "tell", "seek", "getvalue"},
+    (datetime.datetime,): {"utcoffset", "replace", "isoformat", "timetuple", "utctimetuple"},
+    (datetime.timedelta,): {"total_seconds"},
 }
+_OBJ_ATTRS = {
+    (datetime.datetime,): {"year", "month", "day", "hour", "minute", "second", "microsecond", "tzinfo"},
+    (datetime.timedelta,): {"days", "seconds", "microseconds"},
+}
+_DICT_FALLBACK = {"items", "keys", "values", "get", "pop", "update", "setdefault", "clear", "popitem"}
 _PY_ERRORS = (ValueError, TypeError, ArithmeticError, LookupError, struct.error, EOFError, AttributeError)
 
 
@@ -221,100 +326,351 @@ def _err_name(e: BaseException) -> str:
     return "struct.error" if isinstance(e, struct.error) else type(e).__name__
 
 
+def _plain(v):
+    """DictInst -> its dict, for builtins such as len / sorted / list."""
+    return v.data if isinstance(v, DictInst) else v
+
+
+def _mod_find(m, name: str):
+    """Module.find with a cache kept ON the module object (a global cache keyed by id() would go stale when an overlay module is
+    freed and its id reused)."""
+    cache = m.__dict__.setdefault("_g_find", {})
+    if name not in cache:
+        alld = m.find_all(name) if name and "." not in name else ([m.find(name)] if m.find(name) is not None else [])
+        cache[name] = alld[-1] if alld else None       # the last definition wins (overload stubs come first)
+    return cache[name]
+
+
+def _mod_assign(m, name: str):
+    cache = m.__dict__.setdefault("_g_assign", {})
+    if name not in cache:
+        cache[name] = m.module_assign(name)
+    return cache[name]
+
+
 class MiniEval:
-    """Interprets small methods/functions of one module over concrete values: literals, arithmetic, %-formatting, comparisons,
-    subscripts and slices, if/for/while/try/return/raise/assignments, attribute reads and writes on modelled instances,
-    isinstance/type on builtin types, a table of pure builtins, struct.pack/unpack/calcsize, whitelisted methods of
-    str/bytes/list/dict/set/BytesIO values, calls of module functions, of methods of module classes (``self.m(x)``,
-    ``Base.m(self, x)``), constructors of module classes and class-level aliases such as ``fromString = int``."""
+    """Interprets methods/functions of the analysed modules over concrete values: literals, arithmetic, %-formatting and
+    f-strings, comparisons, subscripts and slices, if/for/while/try/return/raise/del/assert/assignments, nested functions
+    and lambdas (closures), *args/**kw, attribute reads and writes on modelled instances, dict-derived classes,
+    ``super().__init__``, getattr/setattr/hasattr, isinstance/type, a table of pure builtins, struct.pack/unpack/calcsize,
+    whitelisted methods of str/bytes/list/dict/set/tuple/BytesIO/datetime values, calls of module functions, methods and
+    constructors of module classes (bases resolved across the analysed modules), class-level aliases (``fromString = int``),
+    stubs, imported opaque names and native models supplied by the rule."""
 
-    FUEL = 200000
+    FUEL = 400000
 
-    def __init__(self, mod, helpers: Optional[Dict[str, Callable]] = None, consts: Optional[Dict[str, object]] = None, extra_mods: Sequence[object] = ()):
+    def __init__(self, mod, helpers: Optional[Dict[str, Callable]] = None, consts: Optional[Dict[str, object]] = None, extra_mods: Sequence[object] = (),
+                 class_overrides: Optional[Dict[Tuple[str, str], object]] = None):
+        self.class_overrides = dict(class_overrides or {})     # (class name, attribute) -> value, for class attributes built by code the interpreter cannot run
         self.mod = mod
         self.mods = [mod] + list(extra_mods)      # names imported from these modules resolve to their definitions
         self.helpers = dict(helpers or {})
         self.consts = dict(consts or {})
         self.depth = 0
         self.fuel = self.FUEL
-        self._home: Dict[int, object] = {}
+        self._imports: Optional[Set[str]] = None
+        self._cls_stack: List[Optional[ast.ClassDef]] = []
+        self._cattr: Dict[Tuple[int, str], object] = {}
+        self.foreign_calls: List[str] = []
+        # caches live on the primary module object (they die with it: overlays get fresh modules), keyed by the set of modules in use
+        shared = mod.__dict__.setdefault("_g_shared", {})
+        sh = shared.setdefault(tuple(id(m) for m in self.mods), {"find": {}, "lin": {}, "look": {}, "for": {}, "home": {}, "keep": list(self.mods)})
+        self._findc, self._linc, self._lookc, self._forc, self._home = sh["find"], sh["lin"], sh["look"], sh["for"], sh["home"]
 
+    # ---- name / class resolution ------------------------------------------------------------------------------------
     def find(self, name: str):
+        if name in self._findc:
+            return self._findc[name]
+        r = None
         for m in self.mods:
-            d = m.find(name)
+            d = _mod_find(m, name)
             if d is not None:
-                return d
-        return None
+                r = d
+                break
+        self._findc[name] = r
+        return r
 
     def home(self, cls: ast.ClassDef):
-        """The module a class is defined in (its bases are resolved there)."""
         k = id(cls)
         if k not in self._home:
-            self._home[k] = next((m for m in self.mods if any(c is cls for c in m.tree.body) or any(c is cls for c in ast.walk(m.tree) if isinstance(c, ast.ClassDef))), self.mod)
+            for m in self.mods:
+                for c in ast.walk(m.tree):
+                    if isinstance(c, ast.ClassDef):
+                        self._home.setdefault(id(c), m)
+            self._home.setdefault(k, self.mod)
         return self._home[k]
 
-    # ---- calls -------------------------------------------------------------------------------------------------
+    def imported(self, name: str) -> bool:
+        if self._imports is None:
+            self._imports = set()
+            for m in self.mods:
+                for st in ast.walk(m.tree):
+                    if isinstance(st, (ast.Import, ast.ImportFrom)):
+                        for a in st.names:
+                            self._imports.add((a.asname or a.name).split(".")[0])
+        return name in self._imports
+
+    def bases(self, cls: ast.ClassDef) -> List[ast.ClassDef]:
+        from sa.source import base_names
+        out = []
+        for b in base_names(cls):
+            c = _mod_find(self.home(cls), b) or self.find(b)
+            if isinstance(c, ast.ClassDef) and c is not cls:
+                out.append(c)
+        return out
+
+    def linear(self, cls: ast.ClassDef) -> List[ast.ClassDef]:
+        """Depth-first, left-to-right linearisation without duplicates (adequate for the hierarchies analysed)."""
+        if id(cls) in self._linc:
+            return self._linc[id(cls)]
+        out: List[ast.ClassDef] = []
+
+        def rec(c):
+            if any(c is x for x in out):
+                return
+            out.append(c)
+            for b in self.bases(c):
+                rec(b)
+        rec(cls)
+        self._linc[id(cls)] = out
+        return out
+
+    def is_dict_class(self, cls: ast.ClassDef) -> bool:
+        from sa.source import base_names
+        return any(b in ("Dict", "dict") for c in self.linear(cls) for b in base_names(c))
+
+    def lookup(self, cls: ast.ClassDef, name: str, after: Optional[ast.ClassDef] = None):
+        """(owner class, FunctionDef | class-level expression) following bases across the analysed modules."""
+        from sa.source import class_assigns as _ca
+        ck = (id(cls), name, id(after))
+        if ck in self._lookc:
+            return self._lookc[ck]
+        self._lookc[ck] = r0 = self._lookup(cls, name, after)
+        return r0
+
+    def _lookup(self, cls: ast.ClassDef, name: str, after: Optional[ast.ClassDef] = None):
+        from sa.source import class_assigns as _ca
+        lin = self.linear(cls)
+        if after is not None:
+            idx = next((i for i, c in enumerate(lin) if c is after), -1)
+            lin = lin[idx + 1:]
+        for c in lin:
+            ms = methods(c)
+            if name in ms:
+                return c, ms[name]
+            ca = _ca(c)
+            if name in ca:
+                return c, ca[name]
+        return None
+
+    def has_foreign_base(self, cls: ast.ClassDef) -> bool:
+        if id(cls) not in self._forc:
+            self._forc[id(cls)] = self._has_foreign_base(cls)
+        return self._forc[id(cls)]
+
+    def _has_foreign_base(self, cls: ast.ClassDef) -> bool:
+        from sa.source import base_names
+        for c in self.linear(cls):
+            for b in base_names(c):
+                if b not in ("object", "Generic", "Dict", "dict") and not isinstance(_mod_find(self.home(c), b) or self.find(b), ast.ClassDef):
+                    return True
+        return False
+
+    def derives(self, cls: ast.ClassDef, other: ast.ClassDef) -> bool:
+        return any(c is other for c in self.linear(cls))
+
+    def class_attr(self, owner: ast.ClassDef, name: str):
+        """Value of a class-level assignment, evaluated in the class body's own environment."""
+        if (owner.name, name) in self.class_overrides:
+            return self.class_overrides[(owner.name, name)]
+        k = (id(owner), name)
+        if k in self._cattr:
+            return self._cattr[k]
+        env: Dict[str, object] = {}
+        val = Unsupported
+        for st in owner.body:
+            tgt = None
+            if isinstance(st, ast.Assign) and len(st.targets) == 1 and isinstance(st.targets[0], ast.Name):
+                tgt, v = st.targets[0].id, st.value
+            elif isinstance(st, ast.AnnAssign) and isinstance(st.target, ast.Name) and st.value is not None:
+                tgt, v = st.target.id, st.value
+            if tgt is None:
+                continue
+            try:
+                env[tgt] = self.expr(v, env)
+            except (Unsupported, Raised):
+                if tgt == name:
+                    raise Unsupported(f"class attribute {owner.name}.{name} = {src(v)[:60]}")
+                continue
+            if tgt == name:
+                val = env[tgt]
+        if val is Unsupported:
+            raise Unsupported(f"class attribute {owner.name}.{name}")
+        self._cattr[k] = val
+        return val
+
+    # ---- calls ----------------------------------------------------------------------------------------------------------
     def method(self, inst: Inst, name: str, args: Sequence[object], kw: Optional[Dict[str, object]] = None):
-        r = mro_lookup(self.home(inst.cls), inst.cls, name)
+        r = self.lookup(inst.cls, name)
         if r is None:
-            raise Unsupported(f"{inst.cls.name}.{name} not found")
+            if isinstance(inst, DictInst) and name in _DICT_FALLBACK:
+                try:
+                    return getattr(inst.data, name)(*[_plain(a) for a in args], **(kw or {}))
+                except _PY_ERRORS as e:
+                    raise Raised(_err_name(e))
+            if name == "__class__":
+                return self.construct(inst.cls, args, kw)
+            if self.has_foreign_base(inst.cls):
+                self.foreign_calls.append(f"{inst.cls.name}.{name}")
+                return None      # inherited from a class outside the analysed modules (Protocol.connectionMade ...): assumed irrelevant
+            raise Raised("AttributeError")
         owner, target = r
         if isinstance(target, (ast.FunctionDef, ast.AsyncFunctionDef)):
-            if any(dotted(d) in ("property", "classmethod", "staticmethod") for d in target.decorator_list):
-                raise Unsupported(f"decorated method {inst.cls.name}.{name}")
-            return self.func(target, [inst] + list(args), kw)
+            decos = {dotted(d) for d in target.decorator_list}
+            if "classmethod" in decos:
+                return self.func(target, [_ClassRef(inst.cls)] + list(args), kw, cls=owner)
+            if "staticmethod" in decos:
+                return self.func(target, list(args), kw, cls=owner)
+            if "property" in decos:
+                raise Unsupported(f"call of property {inst.cls.name}.{name}")
+            return self.func(target, [inst] + list(args), kw, cls=owner)
         d = dotted(target)   # class-level alias: fromString = int
         if d in _PURE:
             return self._pure(d, list(args))
-        raise Unsupported(f"{inst.cls.name}.{name} = {src(target)}")
+        v = self.class_attr(owner, name)
+        return self.call_value(v, list(args), kw or {}, f"{inst.cls.name}.{name}")
 
-    def construct(self, cls: ast.ClassDef, args: Sequence[object], kw: Optional[Dict[str, object]] = None) -> Inst:
-        o = Inst(cls)
-        if mro_lookup(self.home(cls), cls, "__init__") is not None:
-            self.method(o, "__init__", args, kw)
+    def construct(self, cls: ast.ClassDef, args: Sequence[object], kw: Optional[Dict[str, object]] = None):
+        if cls.name in self.helpers:
+            try:
+                return self.helpers[cls.name](*args, **(kw or {}))
+            except _PY_ERRORS as e:
+                raise Raised(_err_name(e))
+        o = DictInst(cls) if self.is_dict_class(cls) else Inst(cls)
+        r = self.lookup(cls, "__init__")
+        if r is not None and isinstance(r[1], ast.FunctionDef):
+            self.func(r[1], [o] + list(args), kw, cls=r[0])
+        elif isinstance(o, DictInst):
+            o.data.update(dict(*[_plain(a) for a in args], **(kw or {})))
         elif args or kw:
-            raise Raised("TypeError")
+            if any(self.find(b) is None for c in self.linear(cls) for b in __import__("sa.source", fromlist=["base_names"]).base_names(c) if b not in ("object",)):
+                o.fields["args"] = tuple(args)      # constructor inherited from an unanalysed base (an exception class ...)
+            else:
+                raise Raised("TypeError")
         return o
 
-    def func(self, f: ast.FunctionDef, args: Sequence[object], kw: Optional[Dict[str, object]] = None):
+    def func(self, f, args: Sequence[object], kw: Optional[Dict[str, object]] = None, closure: Optional[Dict[str, object]] = None, cls=None):
         self.depth += 1
-        if self.depth > 60:
+        if self.depth > 80:
             raise Unsupported("call depth")
+        self._cls_stack.append(cls)
         try:
             a = f.args
-            if a.vararg or a.kwarg or a.posonlyargs:
-                raise Unsupported("signature of " + f.name)
-            params = [p.arg for p in a.args]
+            params = [p.arg for p in a.posonlyargs + a.args]
+            env: Dict[str, object] = dict(closure or {})
+            args = list(args)
             if len(args) > len(params):
-                raise Raised("TypeError")
-            env: Dict[str, object] = dict(zip(params, args))
-            for k, v in (kw or {}).items():
-                if k in env or k not in params + [p.arg for p in a.kwonlyargs]:
+                if a.vararg is None:
                     raise Raised("TypeError")
-                env[k] = v
+                env[a.vararg.arg] = tuple(args[len(params):])
+                args = args[:len(params)]
+            elif a.vararg is not None:
+                env[a.vararg.arg] = ()
+            bound = set()
+            for p, v in zip(params, args):
+                env[p] = v
+                bound.add(p)
+            extra = {}
+            for k, v in (kw or {}).items():
+                if k in bound:
+                    raise Raised("TypeError")
+                if k in params or k in [p.arg for p in a.kwonlyargs]:
+                    env[k] = v
+                    bound.add(k)
+                elif a.kwarg is not None:
+                    extra[k] = v
+                else:
+                    raise Raised("TypeError")
+            if a.kwarg is not None:
+                env[a.kwarg.arg] = extra
             defaults = dict(zip(params[len(params) - len(a.defaults):], a.defaults))
             for p in params:
-                if p not in env:
+                if p not in bound:
                     if p not in defaults:
                         raise Raised("TypeError")
-                    env[p] = self.expr(defaults[p], {})
+                    env[p] = self.expr(defaults[p], dict(closure or {}))
             for p, d in zip(a.kwonlyargs, a.kw_defaults):
-                if p.arg not in env:
+                if p.arg not in bound:
                     if d is None:
                         raise Raised("TypeError")
-                    env[p.arg] = self.expr(d, {})
+                    env[p.arg] = self.expr(d, dict(closure or {}))
+            if isinstance(f, ast.Lambda):
+                return self.expr(f.body, env)
             r = self.block(f.body, env)
             return r[1] if r and r[0] == "return" else None
         finally:
+            self._cls_stack.pop()
             self.depth -= 1
 
-    def _pure(self, name: str, args: List[object]):
+    def _pure(self, name: str, args: List[object], kw: Optional[Dict[str, object]] = None):
         try:
-            return _PURE[name](*args)
+            return _PURE[name](*[_plain(a) for a in args], **(kw or {}))
         except _PY_ERRORS as e:
             raise Raised(_err_name(e))
+        except StopIteration:
+            raise Raised("StopIteration")
 
-    # ---- statements --------------------------------------------------------------------------------------------
+    def call_value(self, callee, args, kw, what="value"):
+        kw = kw or {}
+        if isinstance(callee, _Bound):
+            if callee.name in callee.inst.fields:
+                return self.call_value(callee.inst.fields[callee.name], args, kw, what)
+            return self.method(callee.inst, callee.name, args, kw)
+        if isinstance(callee, _ClassRef):
+            return self.construct(callee.cls, args, kw)
+        if isinstance(callee, _Closure):
+            return self.func(callee.fdef, args, kw, closure=callee.env, cls=callee.cls)
+        if isinstance(callee, PyFn):
+            try:
+                return callee.fn(*args, **kw)
+            except TypeError as e:
+                if "argument" in str(e):
+                    raise Raised("TypeError")
+                raise
+        if isinstance(callee, _StubMethod):
+            callee.stub.calls.append((callee.name, tuple(args), dict(kw)))
+            r = callee.stub.returns.get(callee.name)
+            if isinstance(r, PyFn):
+                return r.fn(*args, **kw)
+            return r
+        if isinstance(callee, Opaque):
+            return OpaqueInst(callee, args, kw)
+        if isinstance(callee, tuple) and len(callee) == 2 and isinstance(callee[0], NativeModel):
+            return self._native_call(callee[0], callee[1], args, kw)
+        if callable(callee) and type(callee).__name__ in ("builtin_function_or_method", "method_descriptor") and getattr(callee, "__self__", None) is not None \
+                and any(isinstance(callee.__self__, t) and callee.__name__ in names for t, names in _OBJ_METHODS.items()):
+            try:
+                return callee(*[_plain(a) for a in args], **kw)
+            except _PY_ERRORS as e:
+                raise Raised(_err_name(e))
+        if isinstance(callee, type) and callee in _TYPES.values():
+            try:
+                return callee(*[_plain(a) for a in args], **kw)
+            except _PY_ERRORS as e:
+                raise Raised(_err_name(e))
+        raise Unsupported("call of " + what)
+
+    def _native_call(self, obj: NativeModel, name: str, args, kw):
+        if name not in obj._methods:
+            raise Raised("AttributeError")
+        try:
+            return getattr(obj, name)(*args, **kw)
+        except TypeError as e:
+            if "argument" in str(e):
+                raise Raised("TypeError")
+            raise
+
+    # ---- statements ---------------------------------------------------------------------------------------------------
     def block(self, stmts, env):
         for st in stmts:
             r = self.stmt(st, env)
@@ -332,25 +688,37 @@ class MiniEval:
             env[t.id] = v
         elif isinstance(t, ast.Attribute):
             o = self.expr(t.value, env)
-            if not isinstance(o, Inst):
+            if isinstance(o, Inst):
+                o.fields[t.attr] = v
+            elif isinstance(o, Stub):
+                o.attrs[t.attr] = v
+            else:
                 raise Unsupported("attribute store on " + src(t.value))
-            o.fields[t.attr] = v
         elif isinstance(t, (ast.Tuple, ast.List)):
             try:
-                vs = list(v)
+                vs = list(_plain(v))
             except TypeError:
                 raise Raised("TypeError")
+            if any(isinstance(e, ast.Starred) for e in t.elts):
+                raise Unsupported("starred assignment target")
             if len(vs) != len(t.elts):
                 raise Raised("ValueError")
             for e, x in zip(t.elts, vs):
                 self.store(e, x, env)
-        elif isinstance(t, ast.Subscript) and not isinstance(t.slice, ast.Slice):
+        elif isinstance(t, ast.Subscript):
             o = self.expr(t.value, env)
-            k = self.expr(t.slice, env)
-            if not isinstance(o, (list, dict)):
+            tgt = o.data if isinstance(o, DictInst) else o
+            if not isinstance(tgt, (list, dict)):
+                if isinstance(tgt, (type(None), int, float, bool, str, bytes, tuple)):
+                    raise Raised("TypeError")
                 raise Unsupported("subscript store on " + src(t.value))
             try:
-                o[k] = v
+                if isinstance(t.slice, ast.Slice):
+                    lo = self.expr(t.slice.lower, env) if t.slice.lower else None
+                    hi = self.expr(t.slice.upper, env) if t.slice.upper else None
+                    tgt[lo:hi] = list(_plain(v))
+                else:
+                    tgt[self.expr(t.slice, env)] = v
             except _PY_ERRORS as e:
                 raise Raised(_err_name(e))
         else:
@@ -374,9 +742,8 @@ class MiniEval:
                 self.store(st.target, self.expr(st.value, env), env)
             return None
         if isinstance(st, ast.AugAssign):
-            cur = self.expr(ast.copy_location(_load(st.target), st.target), env)
-            v = self._binop(st.op, cur, self.expr(st.value, env))
-            self.store(st.target, v, env)
+            cur = self.expr(_load(st.target), env)
+            self.store(st.target, self._binop(st.op, cur, self.expr(st.value, env)), env)
             return None
         if isinstance(st, ast.Return):
             return ("return", None if st.value is None else self.expr(st.value, env))
@@ -387,9 +754,11 @@ class MiniEval:
         if isinstance(st, ast.If):
             return self.block(st.body if self.truth(self.expr(st.test, env)) else st.orelse, env)
         if isinstance(st, ast.For):
-            it = self.expr(st.iter, env)
-            if not isinstance(it, (list, tuple, range, bytes, str, dict, set, bytearray)) and type(it).__name__ not in ("dict_items", "dict_keys", "dict_values", "enumerate", "zip", "reversed"):
-                raise Raised("TypeError") if isinstance(it, (int, float, type(None))) else Unsupported("iteration over " + type(it).__name__)
+            it = _plain(self.expr(st.iter, env))
+            if isinstance(it, (int, float, type(None), bool)):
+                raise Raised("TypeError")
+            if isinstance(it, (Inst, Stub, Opaque, NativeModel)):
+                raise Unsupported("iteration over " + type(it).__name__)
             broke = False
             for x in list(it):
                 self._tick()
@@ -419,9 +788,20 @@ class MiniEval:
                 cur = env.get("<exc>")
                 if cur is None:
                     raise Unsupported("bare raise outside handler")
-                raise Raised(str(cur))
+                raise cur if isinstance(cur, Raised) else Raised(str(cur))
             e = st.exc.func if isinstance(st.exc, ast.Call) else st.exc
-            raise Raised((dotted(e) or "?").split(".")[-1] if dotted(e) != "struct.error" else "struct.error")
+            d = dotted(e) or "?"
+            name = d if d == "struct.error" else d.split(".")[-1]
+            val = None
+            if isinstance(st.exc, ast.Name) and isinstance(env.get(st.exc.id), Raised):
+                raise env[st.exc.id]
+            try:
+                val = self.expr(st.exc, env)       # best effort: the value matters only to code that inspects it
+            except (Unsupported, Raised):
+                val = None
+            if isinstance(val, Raised):
+                raise val
+            raise Raised(name, val)
         if isinstance(st, ast.Try):
             try:
                 try:
@@ -430,11 +810,15 @@ class MiniEval:
                         r = self.block(st.orelse, env)
                 except Raised as ex:
                     for h in st.handlers:
-                        if _handler_matches(h, ex.name):
+                        if self._handler_matches(h, ex, env):
                             if h.name:
-                                env[h.name] = ex
-                            env["<exc>"] = ex.name
-                            r = self.block(h.body, env)
+                                env[h.name] = ex.value if ex.value is not None else ex
+                            saved = env.get("<exc>")
+                            env["<exc>"] = ex
+                            try:
+                                r = self.block(h.body, env)
+                            finally:
+                                env["<exc>"] = saved
                             break
                     else:
                         raise
@@ -444,27 +828,92 @@ class MiniEval:
                     if fr is not None:
                         return fr
             return r
-        if isinstance(st, (ast.FunctionDef, ast.Import, ast.ImportFrom)):
-            raise Unsupported("statement " + type(st).__name__)
+        if isinstance(st, ast.Delete):
+            for t in st.targets:
+                if isinstance(t, ast.Name):
+                    env.pop(t.id, None)
+                elif isinstance(t, ast.Subscript):
+                    o = _plain(self.expr(t.value, env))
+                    try:
+                        if isinstance(t.slice, ast.Slice):
+                            lo = self.expr(t.slice.lower, env) if t.slice.lower else None
+                            hi = self.expr(t.slice.upper, env) if t.slice.upper else None
+                            del o[lo:hi]
+                        else:
+                            del o[self.expr(t.slice, env)]
+                    except _PY_ERRORS as e:
+                        raise Raised(_err_name(e))
+                elif isinstance(t, ast.Attribute):
+                    o = self.expr(t.value, env)
+                    if isinstance(o, Inst) and t.attr in o.fields:
+                        del o.fields[t.attr]
+                    else:
+                        raise Raised("AttributeError")
+                else:
+                    raise Unsupported("del target")
+            return None
+        if isinstance(st, ast.Assert):
+            if not self.truth(self.expr(st.test, env)):
+                raise Raised("AssertionError")
+            return None
+        if isinstance(st, (ast.FunctionDef,)):
+            env[st.name] = _Closure(st, env, self._cls_stack[-1] if self._cls_stack else None)
+            return None
+        if isinstance(st, (ast.Import, ast.ImportFrom)):
+            for a in st.names:
+                env[(a.asname or a.name).split(".")[0]] = Opaque(a.asname or a.name)
+            return None
         raise Unsupported("statement " + type(st).__name__)
 
-    # ---- expressions -------------------------------------------------------------------------------------------
+    def _handler_matches(self, h: ast.ExceptHandler, ex: Raised, env) -> bool:
+        if h.type is None:
+            return True
+        ts = h.type.elts if isinstance(h.type, ast.Tuple) else [h.type]
+        for t in ts:
+            d = dotted(t) or "?"
+            want = d if d == "struct.error" else d.split(".")[-1]
+            if want in ("BaseException", "Exception"):
+                return True
+            cur: Optional[str] = ex.name
+            for _ in range(8):
+                if cur is None:
+                    break
+                if cur == want or (cur == "struct.error" and want == "error"):
+                    return True
+                cur = _EXC_PARENT.get(cur, "Exception")
+            # exception classes of the analysed modules: follow their bases
+            if isinstance(ex.value, Inst):
+                c = self.find(want)
+                if isinstance(c, ast.ClassDef) and self.derives(ex.value.cls, c):
+                    return True
+            c0 = self.find(ex.name)
+            if isinstance(c0, ast.ClassDef):
+                c = self.find(want)
+                if isinstance(c, ast.ClassDef) and self.derives(c0, c):
+                    return True
+        return False
+
+    # ---- expressions --------------------------------------------------------------------------------------------------
     @staticmethod
     def truth(v) -> bool:
-        return True if isinstance(v, (Inst, _Bound, _ClassRef)) else bool(v)
+        if isinstance(v, DictInst):
+            return bool(v.data)
+        return True if isinstance(v, (Inst, _Bound, _ClassRef, _Closure, Stub, Opaque, OpaqueInst, NativeModel, PyFn, _StubMethod)) else bool(v)
 
     def _binop(self, op, a, b):
-        if isinstance(a, (Inst, _Bound, _ClassRef)) or isinstance(b, (Inst, _Bound, _ClassRef)):
-            raise Unsupported("operator on instance")
+        a, b = _plain(a), _plain(b)
+        if isinstance(a, (Inst, _Bound, _ClassRef, Stub, Opaque, NativeModel)) or isinstance(b, (Inst, _Bound, _ClassRef, Stub, Opaque, NativeModel)):
+            raise Raised("TypeError")
         try:
             if isinstance(op, ast.Add):
                 return a + b
             if isinstance(op, ast.Sub):
                 return a - b
             if isinstance(op, ast.Mult):
-                if isinstance(a, int) and isinstance(b, int) or not (isinstance(a, int) or isinstance(b, int)) or max(abs(a) if isinstance(a, int) else 0, abs(b) if isinstance(b, int) else 0) < 1 << 20:
-                    return a * b
-                raise Unsupported("huge repetition")
+                for x, y in ((a, b), (b, a)):
+                    if isinstance(x, int) and not isinstance(y, (int, float)) and abs(x) > 1 << 22:
+                        raise Unsupported("huge repetition")
+                return a * b
             if isinstance(op, ast.Mod):
                 return a % b
             if isinstance(op, ast.FloorDiv):
@@ -487,6 +936,72 @@ class MiniEval:
             raise Raised(_err_name(e))
         raise Unsupported("operator " + type(op).__name__)
 
+    def getattr_value(self, o, attr: str, what: str = ""):
+        if isinstance(o, Inst):
+            if attr in o.fields:
+                return o.fields[attr]
+            if attr == "__dict__":
+                return o.fields
+            if attr == "__class__":
+                return _ClassRef(o.cls)
+            r = self.lookup(o.cls, attr)
+            if r is None:
+                if isinstance(o, DictInst) and attr in _DICT_FALLBACK:
+                    return getattr(o.data, attr)
+                raise Raised("AttributeError")
+            owner, node = r
+            if isinstance(node, (ast.FunctionDef, ast.AsyncFunctionDef)):
+                if any(dotted(d) == "property" for d in node.decorator_list):
+                    return self.func(node, [o], cls=owner)
+                return _Bound(o, attr)
+            if isinstance(node, ast.Name) and node.id in _TYPES:      # class-level alias such as  fromString = int
+                return _TYPES[node.id]
+            return self.class_attr(owner, attr)
+        if isinstance(o, _ClassRef):
+            if attr == "__name__":
+                return o.cls.name
+            r = self.lookup(o.cls, attr)
+            if r is None:
+                raise Raised("AttributeError")
+            owner, node = r
+            if isinstance(node, (ast.FunctionDef, ast.AsyncFunctionDef)):
+                decos = {dotted(d) for d in node.decorator_list}
+                if "classmethod" in decos:
+                    return _Closure(node, {node.args.args[0].arg: o} if False else {}, owner) if False else PyFn(lambda *a, **k: self.func(node, [o] + list(a), k, cls=owner), attr)
+                return _Closure(node, {}, owner)
+            return self.class_attr(owner, attr)
+        if isinstance(o, Stub):
+            if attr in o.attrs:
+                return o.attrs[attr]
+            return _StubMethod(o, attr)
+        if isinstance(o, NativeModel):
+            if attr in o._attrs:
+                return getattr(o, attr)
+            if attr in o._methods:
+                return (o, attr)
+            raise Raised("AttributeError")
+        if isinstance(o, Opaque):
+            return Opaque(o.name + "." + attr)
+        if isinstance(o, OpaqueInst):
+            if attr == "args":
+                return o.args
+            raise Raised("AttributeError")
+        if isinstance(o, Raised):
+            if attr == "args":
+                return ()
+            raise Raised("AttributeError")
+        for types, names in _OBJ_ATTRS.items():
+            if isinstance(o, types) and attr in names:
+                return getattr(o, attr)
+        for types, names in _OBJ_METHODS.items():
+            if isinstance(o, types) and attr in names:
+                return getattr(o, attr)
+        if isinstance(o, type) and attr == "__name__":
+            return o.__name__
+        if isinstance(o, (int, float, type(None), bool, str, bytes, list, tuple, dict, set)):
+            raise Raised("AttributeError")
+        raise Unsupported("attribute " + (what or attr))
+
     def expr(self, n, env):
         if isinstance(n, ast.Constant):
             return n.value
@@ -495,53 +1010,68 @@ class MiniEval:
                 return env[n.id]
             if n.id in self.consts:
                 return self.consts[n.id]
+            if n.id in self.helpers and not callable(self.helpers[n.id]):
+                return self.helpers[n.id]
             if n.id in _TYPES:
                 return _TYPES[n.id]
             c = self.find(n.id)
             if isinstance(c, ast.ClassDef):
                 return _ClassRef(c)
+            if isinstance(c, ast.FunctionDef):
+                return _Closure(c, {}, None)
+            for m in self.mods:
+                v = _mod_assign(m, n.id)
+                if v is not None:
+                    return self.expr(v, {})
             if n.id == "NotImplemented":
                 return NotImplemented
+            if n.id in _PURE:
+                return PyFn(lambda *a, _n=n.id, **k: self._pure(_n, list(a), k), n.id)
+            if self.imported(n.id) or n.id.endswith(("Error", "Exception", "Warning")):
+                return Opaque(n.id)
             raise Unsupported("name " + n.id)
         if isinstance(n, ast.Tuple):
-            return tuple(self.expr(e, env) for e in n.elts)
+            return tuple(self._elts(n.elts, env))
         if isinstance(n, ast.List):
-            return [self.expr(e, env) for e in n.elts]
+            return self._elts(n.elts, env)
+        if isinstance(n, ast.Set):
+            return set(self._elts(n.elts, env))
         if isinstance(n, ast.Dict):
-            return {self.expr(k, env): self.expr(v, env) for k, v in zip(n.keys, n.values)}
+            out = {}
+            for k, v in zip(n.keys, n.values):
+                if k is None:
+                    out.update(_plain(self.expr(v, env)))
+                else:
+                    out[self.expr(k, env)] = self.expr(v, env)
+            return out
         if isinstance(n, ast.JoinedStr):
-            raise Unsupported("f-string value")
+            out = ""
+            for part in n.values:
+                if isinstance(part, ast.Constant):
+                    out += str(part.value)
+                else:
+                    v = self.expr(part.value, env)
+                    if isinstance(v, (Inst, Stub, Opaque, OpaqueInst, NativeModel, _Bound, _ClassRef)):
+                        v = repr(v)
+                    elif part.conversion == ord("r"):
+                        v = repr(v)
+                    elif part.conversion == ord("s"):
+                        v = str(v)
+                    spec = self.expr(part.format_spec, env) if part.format_spec is not None else ""
+                    try:
+                        out += format(v, spec)
+                    except _PY_ERRORS as e:
+                        raise Raised(_err_name(e))
+            return out
         if isinstance(n, ast.Attribute):
-            o = self.expr(n.value, env)
-            if isinstance(o, Inst):
-                if n.attr in o.fields:
-                    return o.fields[n.attr]
-                if n.attr == "__dict__":
-                    return o.fields
-                r = mro_lookup(self.home(o.cls), o.cls, n.attr)
-                if r is None:
-                    raise Raised("AttributeError")
-                if isinstance(r[1], (ast.FunctionDef, ast.AsyncFunctionDef)):
-                    return _Bound(o, n.attr)
-                if isinstance(r[1], ast.Name) and r[1].id in _TYPES:      # class-level alias such as  fromString = int
-                    return _TYPES[r[1].id]
-                v = class_const(self.home(o.cls), o.cls, n.attr, self.consts)
-                if v is None and not (isinstance(r[1], ast.Constant) and r[1].value is None):
-                    raise Unsupported(f"class attribute {o.cls.name}.{n.attr}")
-                return v
-            if isinstance(o, _ClassRef):
-                v = class_const(self.home(o.cls), o.cls, n.attr, self.consts)
-                if v is None:
-                    raise Unsupported(f"class attribute {o.cls.name}.{n.attr}")
-                return v
-            for types, names in _OBJ_METHODS.items():
-                if isinstance(o, types) and n.attr in names:
-                    return getattr(o, n.attr)
-            raise Raised("AttributeError") if isinstance(o, (int, float, type(None), bool)) else Unsupported("attribute " + src(n))
+            d = dotted(n)
+            if d in self.helpers and not callable(self.helpers[d]):
+                return self.helpers[d]
+            return self.getattr_value(self.expr(n.value, env), n.attr, src(n))
         if isinstance(n, ast.Subscript):
-            o = self.expr(n.value, env)
-            if isinstance(o, (Inst, _Bound, _ClassRef)):
-                raise Unsupported("subscript on instance")
+            o = _plain(self.expr(n.value, env))
+            if isinstance(o, (Inst, _Bound, _ClassRef, Stub, Opaque, NativeModel)):
+                raise Raised("TypeError")
             try:
                 if isinstance(n.slice, ast.Slice):
                     lo = self.expr(n.slice.lower, env) if n.slice.lower else None
@@ -582,124 +1112,224 @@ class MiniEval:
             left = self.expr(n.left, env)
             for op, rn in zip(n.ops, n.comparators):
                 right = self.expr(rn, env)
-                try:
-                    ok = {ast.Eq: lambda: left == right, ast.NotEq: lambda: left != right, ast.Lt: lambda: left < right,
-                          ast.LtE: lambda: left <= right, ast.Gt: lambda: left > right, ast.GtE: lambda: left >= right,
-                          ast.Is: lambda: left is right, ast.IsNot: lambda: left is not right, ast.In: lambda: left in right,
-                          ast.NotIn: lambda: left not in right}[type(op)]()
-                except TypeError:
-                    raise Raised("TypeError")
-                if not ok:
+                if not self._compare(op, left, right):
                     return False
                 left = right
             return True
-        if isinstance(n, ast.ListComp) and len(n.generators) == 1 and not n.generators[0].is_async:
+        if isinstance(n, (ast.ListComp, ast.GeneratorExp, ast.SetComp)) and len(n.generators) == 1 and not n.generators[0].is_async:
             gen = n.generators[0]
             out = []
             env2 = dict(env)
-            for x in list(self.expr(gen.iter, env)):
+            for x in list(_plain(self.expr(gen.iter, env))):
                 self._tick()
                 self.store(gen.target, x, env2)
                 if all(self.truth(self.expr(c, env2)) for c in gen.ifs):
                     out.append(self.expr(n.elt, env2))
-            return out
+            return set(out) if isinstance(n, ast.SetComp) else out
+        if isinstance(n, ast.DictComp) and len(n.generators) == 1:
+            gen = n.generators[0]
+            outd = {}
+            env2 = dict(env)
+            for x in list(_plain(self.expr(gen.iter, env))):
+                self._tick()
+                self.store(gen.target, x, env2)
+                if all(self.truth(self.expr(c, env2)) for c in gen.ifs):
+                    outd[self.expr(n.key, env2)] = self.expr(n.value, env2)
+            return outd
+        if isinstance(n, ast.Lambda):
+            return _Closure(n, env, self._cls_stack[-1] if self._cls_stack else None)
         if isinstance(n, ast.Call):
             return self.call(n, env)
+        if isinstance(n, ast.Starred):
+            raise Unsupported("starred expression")
         raise Unsupported("expression " + type(n).__name__)
 
+    def _elts(self, elts, env) -> list:
+        out = []
+        for e in elts:
+            if isinstance(e, ast.Starred):
+                out.extend(list(_plain(self.expr(e.value, env))))
+            else:
+                out.append(self.expr(e, env))
+        return out
+
+    def _compare(self, op, left, right) -> bool:
+        l, r = _plain(left) if not isinstance(right, DictInst) or isinstance(op, (ast.In, ast.NotIn)) else left, _plain(right) if isinstance(op, (ast.In, ast.NotIn)) else right
+        try:
+            if isinstance(op, ast.Is):
+                return left is right or (isinstance(left, (Opaque, _ClassRef)) and left == right)
+            if isinstance(op, ast.IsNot):
+                return not (left is right or (isinstance(left, (Opaque, _ClassRef)) and left == right))
+            if isinstance(op, ast.In):
+                return left in _plain(right)
+            if isinstance(op, ast.NotIn):
+                return left not in _plain(right)
+            if isinstance(op, ast.Eq):
+                return bool(left == right)
+            if isinstance(op, ast.NotEq):
+                return bool(left != right)
+            if isinstance(op, ast.Lt):
+                return left < right
+            if isinstance(op, ast.LtE):
+                return left <= right
+            if isinstance(op, ast.Gt):
+                return left > right
+            if isinstance(op, ast.GtE):
+                return left >= right
+        except TypeError:
+            raise Raised("TypeError")
+        raise Unsupported("comparison")
+
+    def isinstance_(self, v, tnode, env) -> bool:
+        ts = tnode.elts if isinstance(tnode, ast.Tuple) else [tnode]
+        for t in ts:
+            d = dotted(t)
+            if d in _TYPES:
+                py = _TYPES[d]
+                if isinstance(v, DictInst) and py is dict:
+                    return True
+                if not isinstance(v, (Inst, Stub, Opaque, OpaqueInst, NativeModel)) and isinstance(v, py):
+                    return True
+                continue
+            tv = self.expr(t, env)
+            if isinstance(tv, _ClassRef):
+                if isinstance(v, Inst) and self.derives(v.cls, tv.cls):
+                    return True
+                continue
+            if isinstance(tv, Opaque):
+                if isinstance(v, OpaqueInst) and v.of == tv:
+                    return True
+                if isinstance(v, NativeModel) and type(v).__name__.lower().startswith(tv.name.lower()):
+                    return True
+                continue
+            if isinstance(tv, type):
+                if isinstance(v, tv):
+                    return True
+                continue
+            if isinstance(tv, tuple):
+                for x in tv:
+                    if isinstance(x, type) and isinstance(v, x):
+                        return True
+                continue
+            raise Unsupported("isinstance against " + src(t))
+        return False
+
     def call(self, n: ast.Call, env):
-        if any(isinstance(a, ast.Starred) for a in n.args) or any(k.arg is None for k in n.keywords):
-            raise Unsupported("star args")
         fname = dotted(n.func)
         if fname == "isinstance" and len(n.args) == 2:
-            v = self.expr(n.args[0], env)
-            ts = n.args[1].elts if isinstance(n.args[1], ast.Tuple) else [n.args[1]]
-            pys = []
-            for t in ts:
-                d = dotted(t)
-                if d in _TYPES:
-                    pys.append(_TYPES[d])
-                else:
-                    c = self.find(d or "")
-                    if isinstance(c, ast.ClassDef):
-                        if isinstance(v, Inst) and _derives(self.home(v.cls), v.cls, c.name):
-                            return True
-                        continue
-                    raise Unsupported("isinstance against " + src(t))
-            return isinstance(v, tuple(pys)) if pys else False
+            return self.isinstance_(self.expr(n.args[0], env), n.args[1], env)
+        args = self._elts(n.args, env)
+        kw: Dict[str, object] = {}
+        for k in n.keywords:
+            if k.arg is None:
+                kw.update(_plain(self.expr(k.value, env)))
+            else:
+                kw[k.arg] = self.expr(k.value, env)
         if fname in _NOOPS:
-            for a in n.args:
-                self.expr(a, env)       # operands are evaluated eagerly (a bad %-format raises here)
             return None
-        args = [self.expr(a, env) for a in n.args]
-        kw = {k.arg: self.expr(k.value, env) for k in n.keywords}
-        if fname in self.helpers and fname not in env:
+        local = isinstance(n.func, ast.Name) and n.func.id in env
+        if fname in self.helpers and callable(self.helpers[fname]) and not local:
             try:
                 return self.helpers[fname](*args, **kw)
             except _PY_ERRORS as e:
                 raise Raised(_err_name(e))
-        if fname in _STRUCT and fname not in env:
+        if fname in _STRUCT and not local:
             try:
-                return _STRUCT[fname](*args)
+                return _STRUCT[fname](*[_plain(a) for a in args])
             except _PY_ERRORS as e:
                 raise Raised(_err_name(e))
-        if fname == "BytesIO" or fname == "io.BytesIO":
+        if fname in ("BytesIO", "io.BytesIO") and not local:
             return io.BytesIO(*args)
+        if fname == "getattr" and len(args) in (2, 3) and isinstance(args[1], str):
+            try:
+                return self.getattr_value(args[0], args[1])
+            except Raised as ex:
+                if ex.name == "AttributeError" and len(args) == 3:
+                    return args[2]
+                raise
+        if fname == "hasattr" and len(args) == 2:
+            try:
+                self.getattr_value(args[0], args[1])
+                return True
+            except Raised:
+                return False
+        if fname == "setattr" and len(args) == 3 and isinstance(args[0], Inst):
+            args[0].fields[args[1]] = args[2]
+            return None
+        if fname == "id" and len(args) == 1:
+            return id(args[0])
         if isinstance(n.func, ast.Name):
-            if n.func.id in env:
-                callee = env[n.func.id]
-                return self._call_value(callee, args, kw, src(n.func))
-            if n.func.id in _PURE and not kw:
-                return self._pure(n.func.id, args)
+            if local:
+                return self.call_value(env[n.func.id], args, kw, n.func.id)
+            if n.func.id in _PURE:
+                return self._pure(n.func.id, args, kw)
             d = self.find(n.func.id)
             if isinstance(d, ast.FunctionDef):
                 return self.func(d, args, kw)
             if isinstance(d, ast.ClassDef):
                 return self.construct(d, args, kw)
-            raise Unsupported("call " + n.func.id)
+            v = self.expr(n.func, env)      # module-level alias (Box = AmpBox), imported name ...
+            return self.call_value(v, args, kw, n.func.id)
         if isinstance(n.func, ast.Attribute):
             f = n.func
-            # Base.method(self, x)
+            # super().__init__(...) / super().method(...)
+            if isinstance(f.value, ast.Call) and dotted(f.value.func) == "super":
+                cur = self._cls_stack[-1] if self._cls_stack else None
+                me = env.get("self")
+                if cur is None or not isinstance(me, Inst):
+                    raise Unsupported("super() outside a method")
+                r = self.lookup(me.cls, f.attr, after=cur)
+                if r is not None and isinstance(r[1], ast.FunctionDef):
+                    return self.func(r[1], [me] + args, kw, cls=r[0])
+                if f.attr == "__init__":
+                    if isinstance(me, DictInst):
+                        me.data.update(dict(*[_plain(a) for a in args], **kw))
+                    elif args:
+                        me.fields["args"] = tuple(args)
+                    return None
+                if isinstance(me, DictInst) and f.attr in _DICT_FALLBACK | {"__repr__"}:
+                    return repr(me.data) if f.attr == "__repr__" else getattr(me.data, f.attr)(*args, **kw)
+                raise Raised("AttributeError")
+            # Base.method(self, x)  /  dict.__repr__(self)
             if isinstance(f.value, ast.Name) and f.value.id not in env:
                 c = self.find(f.value.id)
-                if isinstance(c, ast.ClassDef) and args and isinstance(args[0], Inst):
-                    r = mro_lookup(self.home(c), c, f.attr)
+                if isinstance(c, ast.ClassDef):
+                    r = self.lookup(c, f.attr)
                     if r and isinstance(r[1], ast.FunctionDef):
-                        return self.func(r[1], args, kw)
-                raise Unsupported("call " + src(f))
+                        decos = {dotted(d) for d in r[1].decorator_list}
+                        if "classmethod" in decos:
+                            return self.func(r[1], [_ClassRef(c)] + args, kw, cls=r[0])
+                        if "staticmethod" in decos:
+                            return self.func(r[1], args, kw, cls=r[0])
+                        return self.func(r[1], args, kw, cls=r[0])
+                    if f.attr == "__init__" and args and isinstance(args[0], Inst):
+                        if isinstance(args[0], DictInst):
+                            args[0].data.update(dict(*[_plain(a) for a in args[1:]], **kw))
+                        return None       # constructor of an unanalysed base (Exception.__init__ ...)
+                    if r is not None:
+                        return self.call_value(self.class_attr(r[0], f.attr), args, kw, src(f))
+                    raise Raised("AttributeError")
+                if f.value.id in ("dict", "Exception", "object") and f.attr in ("__init__", "__repr__"):
+                    return repr(_plain(args[0])) if f.attr == "__repr__" else None
             recv = self.expr(f.value, env)
             if isinstance(recv, Inst):
                 if f.attr in recv.fields:
-                    return self._call_value(recv.fields[f.attr], args, kw, src(f))
+                    return self.call_value(recv.fields[f.attr], args, kw, src(f))
                 return self.method(recv, f.attr, args, kw)
+            if isinstance(recv, (Stub, NativeModel, _ClassRef, OpaqueInst)):
+                return self.call_value(self.getattr_value(recv, f.attr, src(f)), args, kw, src(f))
+            if isinstance(recv, Opaque):
+                return OpaqueInst(Opaque(recv.name + "." + f.attr), args, kw)
             for types, names in _OBJ_METHODS.items():
                 if isinstance(recv, types) and f.attr in names:
                     try:
-                        return getattr(recv, f.attr)(*args, **kw)
+                        return getattr(recv, f.attr)(*[_plain(a) for a in args], **kw)
                     except _PY_ERRORS as e:
                         raise Raised(_err_name(e))
-            if isinstance(recv, (int, float, type(None), bool, tuple)):
+            if isinstance(recv, (int, float, type(None), bool, tuple, str, bytes, list, dict, set)):
                 raise Raised("AttributeError")
             raise Unsupported("call " + src(f))
-        raise Unsupported("call " + src(n.func))
-
-    def _call_value(self, callee, args, kw, what):
-        if isinstance(callee, _Bound):
-            return self.method(callee.inst, callee.name, args, kw)
-        if isinstance(callee, _ClassRef):
-            return self.construct(callee.cls, args, kw)
-        if callable(callee) and type(callee).__name__ == "builtin_function_or_method" and getattr(callee, "__self__", None) is not None \
-                and any(isinstance(callee.__self__, t) and callee.__name__ in names for t, names in _OBJ_METHODS.items()):
-            try:
-                return callee(*args, **kw)
-            except _PY_ERRORS as e:
-                raise Raised(_err_name(e))
-        if isinstance(callee, type) and callee in _TYPES.values():
-            try:
-                return callee(*args, **kw)
-            except _PY_ERRORS as e:
-                raise Raised(_err_name(e))
-        raise Unsupported("call of value " + what)
+        return self.call_value(self.expr(n.func, env), args, kw, src(n.func))
 
 
 def _load(t: ast.AST) -> ast.AST:
@@ -727,17 +1357,6 @@ def _handler_matches(h: ast.ExceptHandler, name: str) -> bool:
         if cur in wanted or (cur == "struct.error" and "error" in wanted):
             return True
         cur = _EXC_PARENT.get(cur, "Exception")
-    return False
-
-
-def _derives(mod, cls: ast.ClassDef, name: str, seen=()) -> bool:
-    if cls.name == name:
-        return True
-    from sa.source import base_names
-    for b in base_names(cls):
-        c = mod.find(b)
-        if isinstance(c, ast.ClassDef) and b not in seen and _derives(mod, c, name, seen + (b,)):
-            return True
     return False
 
 
